@@ -211,17 +211,18 @@ def write_evidence(prop, tier, seed, main, planted, extra, pre, known, violation
         u = r.unit
         n = len(r.obligations)
         dis = len([o for o in r.obligations if o['status'] == 'SUCCESS'])
-        rec = {'unit': r.label, 'kind': u.kind, 'bound': u.bound, 'status': r.status, 'reason': r.reason,
+        kind, bound = u.variant_kind.get(r.variant, (u.kind, u.bound))
+        rec = {'unit': r.label, 'kind': kind, 'bound': bound, 'status': r.status, 'reason': r.reason,
                'obligations': n, 'discharged': dis, 'wall_s': round(r.wall, 1), 'solver_s': round(r.solver_s, 1),
                'back_end': 'cbmc/' + (u.solver or 'minisat'), 'entry': u.entry, 'replaced_by_contract': u.replace,
                'canary': r.canary, 'cuts': r.cuts, 'desc': u.desc}
         units.append(rec)
         if r.status in ('pass', 'fail'):
-            if u.kind == 'proof':
+            if kind == 'proof':
                 proof_ob += n
                 proof_dis += dis
             else:
-                bounded.append({'unit': r.label, 'bound': u.bound, 'obligations': n, 'discharged': dis})
+                bounded.append({'unit': r.label, 'bound': bound, 'obligations': n, 'discharged': dis})
             for f in u.functions:
                 functions.add(f)
         trusted.update(u.trusted)
